@@ -23,12 +23,14 @@ type Chunk struct {
 
 // Script is the behaviour of one child process.
 type Script struct {
-	StartErr   bool
-	Chunks     []Chunk
-	Endless    bool // after the chunks: keep the process alive (silent) until killed
-	FinalMs    int  // delay before exit
-	ExitCode   int
-	IgnoreKill bool // not used: SIGKILL cannot be ignored
+	StartErr bool
+	Chunks   []Chunk
+	Endless  bool // after the chunks: keep the process alive (silent) until killed
+	FinalMs  int  // delay before exit
+	ExitCode int
+	// Fork: the shell forks a child (a pipeline or compound command) that does the work and holds the
+	// output pipe; only a signal to the whole process group reaches it.
+	Fork bool
 }
 
 // Proc is an entry of the simulated process table.
@@ -56,6 +58,8 @@ type Proc struct {
 	pipe   *pipe
 	stdout io.Writer
 	waited bool
+	Parent *Proc
+	child  *Proc
 }
 
 // OS is the simulated operating system.
@@ -197,6 +201,45 @@ func (p *Proc) sleep(ms int) bool {
 }
 
 func (p *Proc) run() {
+	if p.script.Fork && p.Parent == nil {
+		// the shell: start the worker child in the same process group and wait for it
+		o := p.os
+		o.mu.Lock()
+		o.nextPid++
+		ch := &Proc{Pid: o.nextPid, Pgid: p.Pgid, Shell: p.Shell, Command: p.Command + " [forked child]", Env: p.Env, Setpgid: p.Setpgid,
+			os: o, Started: o.sim.Now(), Alive: true, killCh: make(chan struct{}), doneCh: make(chan struct{}), pipe: p.pipe, stdout: p.stdout, Parent: p}
+		ch.script = p.script
+		p.child = ch
+		o.Procs = append(o.Procs, ch)
+		if p.pipe != nil {
+			p.pipe.addWriter()
+		}
+		o.mu.Unlock()
+		o.logf("proc %d fork -> %d", p.Pid, ch.Pid)
+		o.sim.Go(fmt.Sprintf("proc/%d", ch.Pid), ch.run)
+		killed := false
+		select {
+		case <-p.killCh:
+			killed = true
+		case <-ch.doneCh:
+		}
+		zsim.Yield("proc.exit")
+		o.mu.Lock()
+		p.Alive = false
+		p.Ended = o.sim.Now()
+		if killed || p.Killed {
+			p.ExitCode = 137
+		} else {
+			p.ExitCode = ch.ExitCode
+		}
+		o.mu.Unlock()
+		o.logf("proc %d exit code=%d", p.Pid, p.ExitCode)
+		if p.pipe != nil {
+			p.pipe.closeWrite()
+		}
+		close(p.doneCh)
+		return
+	}
 	alive := true
 	for _, c := range p.script.Chunks {
 		if !p.sleep(c.DelayMs) {
@@ -318,13 +361,20 @@ func (o *OS) Snapshot() []*Proc {
 type pipe struct {
 	mu      sync.Mutex
 	buf     []byte
+	writers int
 	wclosed bool
 	rclosed bool
 	wake    chan struct{}
 	p       *Proc
 }
 
-func newPipe(p *Proc) *pipe { return &pipe{wake: make(chan struct{}, 1), p: p} }
+func newPipe(p *Proc) *pipe { return &pipe{wake: make(chan struct{}, 1), p: p, writers: 1} }
+
+func (pp *pipe) addWriter() {
+	pp.mu.Lock()
+	pp.writers++
+	pp.mu.Unlock()
+}
 
 func (pp *pipe) signal() {
 	select {
@@ -344,7 +394,10 @@ func (pp *pipe) write(b []byte) {
 
 func (pp *pipe) closeWrite() {
 	pp.mu.Lock()
-	pp.wclosed = true
+	pp.writers--
+	if pp.writers <= 0 {
+		pp.wclosed = true
+	}
 	pp.mu.Unlock()
 	pp.signal()
 }
